@@ -38,10 +38,24 @@ Clause → theorems → what stays outside (the same table is in harness/registr
      `combi_sentinel`, `var2h_rejects_options`, `getdate_rejects`.  Outside: that the Python wrapper turns the
      code into `ValueError` and validates lengths / options itself is compared at run time (return code class of
      every recorded kernel call vs the model; an error code must surface as an exception), not modelled in Lean.
+7. "the code that exists" (tie of the models to the source): for the integer kernels of `data/c_dateutils.c`
+   (`isleapyear, daysinmonth, dayofyear, comparedates, add1month, add1day`), `c_combi`, and `clipi, getnxy,
+   c_cell2rowcol, c_neighbours, c_upstream, c_downstream` of `gis/c_grid.c` the model is GENERATED from the C text
+   on every run (`Generated/CKernels.lean`, namespace `CGen`, by `harness/c2lean.py`) with values and faults:
+     `cgen_*_value` (results for all arguments of the stated region: Gregorian rule, month lengths, lexicographic
+     order, next day / next month, `Nat.choose`, `C07.colOf/rowOf/neighbour`), `cgen_*_safe` (no fault under the
+     kernel's precondition, all lengths and contents, any garbage in uninitialised local arrays),
+     `cgen_*_refines` (the hand-written footprint model is the image of the generated function: equality for the scalar
+     kernels, same return code under the kernel's precondition for add1month, add1day, comparedates, upstream, downstream),
+     `cgen_*_wrapper` (Cython asserts ⇒ precondition of the GENERATED kernel).
+   Outside: clang's parser, the translator, the primitives of `Model/CSem.lean` — validated at run time by calling
+   the compiled kernels through ctypes on boundary and random inputs and comparing values and buffers exactly.
 Every theorem has a concrete instance of its hypotheses in the last section.
 -/
 import HydroVerif.Lemmas.C05
 import HydroVerif.Lemmas.C05Wrap
+import HydroVerif.Lemmas.CGenDate
+import HydroVerif.Lemmas.CGenGrid
 
 namespace HydroVerif.C05
 
@@ -1353,6 +1367,437 @@ theorem wrappers_covered : PyxSpec.wrappers.map (·.1) =
 end wrappers
 
 
+/-! ## the definitions GENERATED from the C text (`Generated/CKernels.lean`, rewritten by `harness/c2lean.py` from
+`data/c_dateutils.c`, `data/c_dutils.c`, `gis/c_grid.c` on every run)
+
+Every statement below is about `CGen.f`, the translation of the C function `f` with its full integer semantics
+(values, out-of-bounds accesses, zero divisors, `int` / `long long` overflow): a change of the C text changes
+`CGen.f` and the statement is re-proved against the new text.
+ * value theorems `cgen_f_value` give the result for ALL arguments in the stated region — in particular the run ends
+   with `.ok` (no fault);
+ * `cgen_f_safe`: under the kernel's precondition (the one of the footprint theorem `f_safe`) the generated function
+   returns `.ok _` for all lengths and contents;
+ * `cgen_f_refines`: the hand-written footprint model of `Model/C05.lean` is the image of the generated function — for the
+   scalar kernels an equality for ALL arguments (`isleapyear`, `combi`; `daysinmonth`, `dayofyear` under the code class),
+   for the kernels with buffers (`add1month`, `add1day`, `comparedates`, `upstream`, `downstream`): under the kernel's
+   precondition both end without fault with the same return code;
+ * `cgen_f_wrapper`: the Cython asserts (GENERATED `PyxSpec`) give the precondition of the GENERATED kernel. -/
+section generated
+open HydroVerif.CSem
+
+/-- `c_dateutils_isleapyear` is the Gregorian rule, for every `year` (negative years included) -/
+theorem cgen_isleapyear_gregorian (y : Int) : CGen.c_dateutils_isleapyear y =
+    .ok (if 4 ∣ y ∧ (¬ 100 ∣ y ∨ 400 ∣ y) then 1 else 0) := by
+  rw [cgen_isleapyear_eq']
+  simp only [Int.dvd_iff_tmod_eq_zero, ne_eq]
+
+/-- the footprint model `C05.isleapyear` IS the generated function -/
+theorem cgen_isleapyear_refines (y : Int) : CGen.c_dateutils_isleapyear y = isleapyear y := by
+  rw [cgen_isleapyear_eq']
+  simp [isleapyear, cmod, bind, Except.bind, pure, Except.pure]
+
+/-- `c_dateutils_daysinmonth`: the length of the month for months 1..12, `-1` otherwise; never a fault (the table
+`days_in_month[13]` is indexed behind the guard, `n+1` cannot overflow) -/
+theorem cgen_daysinmonth_value (y m : Int) : CGen.c_dateutils_daysinmonth y m =
+    .ok (if 1 ≤ m ∧ m ≤ 12 then nbdayOf y m else -1) := cgen_daysinmonth_eq' y m
+
+/-- the footprint model `C05.daysinmonth` (code class `-1` / `0`) is the image of the generated function -/
+theorem cgen_daysinmonth_refines (y m : Int) :
+    (CGen.c_dateutils_daysinmonth y m).map (fun v => if v < 0 then -1 else 0) = daysinmonth m := by
+  rw [cgen_daysinmonth_eq']
+  have h := nbdayOf_range y m
+  unfold daysinmonth
+  by_cases hm : 1 ≤ m ∧ m ≤ 12
+  · have h1 : ¬ (m < 1 ∨ m > 12) := by omega
+    have h2 : ¬ nbdayOf y m < 0 := by omega
+    have h3 : 0 ≤ m ∧ m < 13 := by omega
+    simp [hm, h1, h2, h3, acc, Except.map, bind, Except.bind, pure, Except.pure]
+  · have h1 : m < 1 ∨ m > 12 := by omega
+    simp [hm, h1, Except.map, pure, Except.pure]
+
+/-- `c_dateutils_dayofyear`: days before the month (non-leap year) plus the day, `-1` outside month 1..12 / day 1..31 -/
+theorem cgen_dayofyear_value (m d : Int) : CGen.c_dateutils_dayofyear m d =
+    .ok (if 1 ≤ m ∧ m ≤ 12 ∧ 1 ≤ d ∧ d ≤ 31 then daysBefore m + d else -1) := cgen_dayofyear_eq' m d
+
+/-- the footprint model `C05.dayofyear` is the image of the generated function -/
+theorem cgen_dayofyear_refines (m d : Int) :
+    (CGen.c_dateutils_dayofyear m d).map (fun v => if v < 0 then -1 else 0) = dayofyear m d := by
+  rw [cgen_dayofyear_eq']
+  obtain ⟨h1, h2, h3, h4, h5, h6, h7, h8, h9, h10, h11, h12⟩ := daysBefore_vals
+  unfold dayofyear
+  by_cases hm : m < 1 ∨ m > 12
+  · have : ¬ (1 ≤ m ∧ m ≤ 12 ∧ 1 ≤ d ∧ d ≤ 31) := by omega
+    simp [hm, this, Except.map, pure, Except.pure]
+  · by_cases hd : d < 1 ∨ d > 31
+    · have : ¬ (1 ≤ m ∧ m ≤ 12 ∧ 1 ≤ d ∧ d ≤ 31) := by omega
+      simp [hm, hd, this, Except.map, pure, Except.pure]
+    · have h : 1 ≤ m ∧ m ≤ 12 ∧ 1 ≤ d ∧ d ≤ 31 := by omega
+      have h3 : 0 ≤ m ∧ m < 13 := by omega
+      have hb : ¬ daysBefore m + d < 0 := by
+        have : m = 1 ∨ m = 2 ∨ m = 3 ∨ m = 4 ∨ m = 5 ∨ m = 6 ∨ m = 7 ∨ m = 8 ∨ m = 9 ∨ m = 10 ∨ m = 11 ∨ m = 12 := by
+          omega
+        rcases this with rfl | rfl | rfl | rfl | rfl | rfl | rfl | rfl | rfl | rfl | rfl | rfl <;> omega
+      simp [hm, hd, h, h3, hb, acc, Except.map, bind, Except.bind, pure, Except.pure]
+
+/-- `c_dateutils_comparedates` is the lexicographic order on (year, month, day): `1` earlier, `0` same, `-1` later -/
+theorem cgen_comparedates_value (y1 m1 d1 y2 m2 d2 : Int) (r1 r2 : List Int) :
+    CGen.c_dateutils_comparedates (y1 :: m1 :: d1 :: r1) (y2 :: m2 :: d2 :: r2) = .ok (cmp3 y1 m1 d1 y2 m2 d2) :=
+  cgen_comparedates_eq' y1 m1 d1 y2 m2 d2 r1 r2
+
+/-- no access outside two dates of (at least) three fields, whatever they hold -/
+theorem cgen_comparedates_safe (a b : List Int) (ha : 3 ≤ a.length) (hb : 3 ≤ b.length) :
+    Safe (CGen.c_dateutils_comparedates a b) := by
+  obtain ⟨y1, m1, d1, r1, rfl⟩ := three_of_length ha
+  obtain ⟨y2, m2, d2, r2, rfl⟩ := three_of_length hb
+  exact ⟨_, cgen_comparedates_eq' y1 m1 d1 y2 m2 d2 r1 r2⟩
+
+/-- `c_dateutils_add1month` on a date with a month 1..12: the same day of the next month, clipped to its length;
+after December comes January of the next year -/
+theorem cgen_add1month_value (y m d : Int) (r : List Int) (hy : I32 y) (hm : 1 ≤ m ∧ m ≤ 12)
+    (hlast : ¬ (m = 12 ∧ y = 2147483647)) :
+    CGen.c_dateutils_add1month (y :: m :: d :: r) = .ok (0,
+      (if m < 12 then y else y + 1) :: (if m < 12 then m + 1 else 1) ::
+        (if d > nbdayOf (if m < 12 then y else y + 1) (if m < 12 then m + 1 else 1)
+          then nbdayOf (if m < 12 then y else y + 1) (if m < 12 then m + 1 else 1) else d) :: r) := by
+  rw [cgen_add1month_eq' y m d r hy (by unfold I32; omega)]
+  have h31 : nbdayOf (y + 1) 1 = 31 := by simp [nbdayOf]
+  by_cases h : m < 12
+  · have : ¬ m + 1 < 1 := by omega
+    simp [h, this]
+  · have h2 : ¬ y = 2147483647 := by omega
+    simp [h, h2, h31]
+
+/-- December of the last `int` year has no next month: error return, the date is left as it was (no overflow) -/
+theorem cgen_add1month_last (d : Int) (r : List Int) :
+    CGen.c_dateutils_add1month (2147483647 :: 12 :: d :: r) = .ok (1, 2147483647 :: 12 :: d :: r) := by
+  rw [cgen_add1month_eq' _ _ d r (by unfold I32; omega) (by unfold I32; omega)]
+  simp
+
+/-- no fault on ANY date of (at least) three `int` fields -/
+theorem cgen_add1month_safe (date : List Int) (h : 3 ≤ date.length) (hI : ∀ x ∈ date, I32 x) :
+    Safe (CGen.c_dateutils_add1month date) := by
+  obtain ⟨y, m, d, r, rfl⟩ := three_of_length h
+  exact ⟨_, cgen_add1month_eq' y m d r (hI y (by simp)) (hI m (by simp))⟩
+
+/-- `c_dateutils_add1day` on a valid date: the next day of the Gregorian calendar -/
+theorem cgen_add1day_value (y m d : Int) (r : List Int) (hy : I32 y) (hm : 1 ≤ m ∧ m ≤ 12)
+    (hd : 1 ≤ d ∧ d ≤ nbdayOf y m) (hlast : ¬ (m = 12 ∧ d = 31 ∧ y = 2147483647)) :
+    CGen.c_dateutils_add1day (y :: m :: d :: r) = .ok (0,
+      if d < nbdayOf y m then y :: m :: (d + 1) :: r
+      else if m < 12 then y :: (m + 1) :: 1 :: r else (y + 1) :: 1 :: 1 :: r) := by
+  have hr := nbdayOf_range y m
+  rw [cgen_add1day_eq' y m d r hy (by unfold I32; omega) (by unfold I32; omega)]
+  have h1 : ¬ (m < 1 ∨ m > 12) := by omega
+  have h12 : nbdayOf y 12 = 31 := by simp [nbdayOf]
+  by_cases h : d < nbdayOf y m
+  · simp [h1, h]
+  · have e : d = nbdayOf y m := by omega
+    have h2 : ¬ (m = 12 ∧ y = 2147483647) := by
+      rintro ⟨rfl, rfl⟩
+      omega
+    simp only [h1, h, e, h2, if_false, if_true]
+    by_cases hm12 : m < 12 <;> simp [hm12]
+
+/-- the last day of the last `int` year has no next day: error return, the date is left as it was -/
+theorem cgen_add1day_last (r : List Int) :
+    CGen.c_dateutils_add1day (2147483647 :: 12 :: 31 :: r) = .ok (1, 2147483647 :: 12 :: 31 :: r) := by
+  rw [cgen_add1day_eq' _ _ _ r (by unfold I32; omega) (by unfold I32; omega) (by unfold I32; omega)]
+  simp [nbdayOf]
+
+/-- no fault on ANY date of (at least) three `int` fields (invalid months and days are answered with the error code) -/
+theorem cgen_add1day_safe (date : List Int) (h : 3 ≤ date.length) (hI : ∀ x ∈ date, I32 x) :
+    Safe (CGen.c_dateutils_add1day date) := by
+  obtain ⟨y, m, d, r, rfl⟩ := three_of_length h
+  exact ⟨_, cgen_add1day_eq' y m d r (hI y (by simp)) (hI m (by simp)) (hI d (by simp))⟩
+
+/-- `c_combi(n, k)` is the binomial coefficient on the whole region where it does not return the sentinel and
+`k ≤ n` (for `k > n` the C code returns 1) -/
+theorem cgen_combi_choose (n k : Int) (hk : 0 ≤ k) (hkn : k ≤ n) (hk30 : k ≤ 30) (hd : n - k ≤ 30) :
+    CGen.c_combi n k = .ok (Nat.choose n.toNat k.toNat) := cgen_combi_choose' n k hk hkn hk30 hd
+
+/-- the sentinel `-1` comes before any product is formed (and `n-k` is formed only for non-negative arguments) -/
+theorem cgen_combi_sentinel (n k : Int) (hn : I32 n) (hk : I32 k) (h : n < 0 ∨ k < 0 ∨ k > 30 ∨ n - k > 30) :
+    CGen.c_combi n k = .ok (-1) := cgen_combi_sentinel' n k hn hk h
+
+/-- no `int` / `long long` overflow, no zero divisor, for ALL `int` arguments -/
+theorem cgen_combi_safe (n k : Int) (hn : I32 n) (hk : I32 k) : Safe (CGen.c_combi n k) := cgen_combi_safe' n k hn hk
+
+/-- `clipi` -/
+theorem cgen_clipi_value (x a b : Int) : CGen.clipi x a b = .ok (if x < a then a else if x > b then b else x) :=
+  cgen_clipi_eq' x a b
+
+/-- `getnxy` writes the column and the row of `C07` for a cell number `≥ 0` of a grid with columns -/
+theorem cgen_getnxy_value (ncols idx : Int) (nxy : List Int) (h2 : 2 ≤ nxy.length) (hc : 0 < ncols) (h0 : 0 ≤ idx)
+    (hI : idx ≤ 9223372036854775807) :
+    CGen.getnxy ncols idx nxy = .ok (0, (nxy.set 0 (colOf ncols idx)).set 1 (rowOf ncols idx)) :=
+  cgen_getnxy_eq' nxy h2 hc h0 hI
+
+/-- `c_cell2rowcol` under the kernel's precondition: no fault, and entry `i` of the output is the (row, column)
+of `C07.cell2rowcol` — `(-1, -1)` for a cell number outside the grid — for all lengths and contents -/
+theorem cgen_cell2rowcol_value (junk : Nat → Int) (nrows ncols nval : Int) (idxcell rowcols : List Int)
+    (hr : 0 ≤ nrows) (hc : 0 ≤ ncols) (hN : nrows * ncols ≤ 9223372036854775807)
+    (h1 : nval ≤ idxcell.length) (h2 : 2 * nval ≤ rowcols.length)
+    (hL : (rowcols.length : Int) ≤ 9223372036854775807) :
+    ∃ out, CGen.c_cell2rowcol junk nrows ncols nval idxcell rowcols = .ok (0, out) ∧
+      out.length = rowcols.length ∧
+      ∀ i : Nat, (i : Int) < nval →
+        out.getD (2 * i) 0 = (C07.cell2rowcol nrows ncols (idxcell.getD i 0)).1 ∧
+        out.getD (2 * i + 1) 0 = (C07.cell2rowcol nrows ncols (idxcell.getD i 0)).2 := by
+  obtain ⟨⟨c, out⟩, hx, h0, hl, hv⟩ := cgen_cell2rowcol_spec' junk nrows ncols nval idxcell rowcols hr hc hN h1 h2 hL
+  simp only [] at h0
+  subst h0
+  exact ⟨out, hx, hl, hv⟩
+
+theorem cgen_cell2rowcol_safe (junk : Nat → Int) (nrows ncols nval : Int) (idxcell rowcols : List Int)
+    (hr : 0 ≤ nrows) (hc : 0 ≤ ncols) (hN : nrows * ncols ≤ 9223372036854775807)
+    (h1 : nval ≤ idxcell.length) (h2 : 2 * nval ≤ rowcols.length)
+    (hL : (rowcols.length : Int) ≤ 9223372036854775807) :
+    Safe (CGen.c_cell2rowcol junk nrows ncols nval idxcell rowcols) :=
+  safe_of_wp (cgen_cell2rowcol_spec' junk nrows ncols nval idxcell rowcols hr hc hN h1 h2 hL)
+
+/-- `c_neighbours` for a cell of the grid: no fault, entry `k` is `C07.neighbour … k` (the rest of the buffer is
+left alone), whatever the local `nxy[2]` held -/
+theorem cgen_neighbours_value (junk : Nat → Int) (nrows ncols idx : Int) (nb : List Int)
+    (hr : 0 ≤ nrows) (hc : 0 ≤ ncols) (hN : nrows * ncols ≤ 9223372036854775807)
+    (hg : 0 ≤ idx ∧ idx < nrows * ncols) (h9 : 9 ≤ nb.length) :
+    ∃ out, CGen.c_neighbours junk nrows ncols idx nb = .ok (0, out) ∧ out.length = nb.length ∧
+      (∀ k : Nat, k < 9 → out.getD k 0 = neighbour nrows ncols idx k) ∧
+      ∀ p : Nat, 9 ≤ p → out.getD p 0 = nb.getD p 0 := by
+  obtain ⟨⟨c, out⟩, hx, h0, hl, hv, hrest⟩ := cgen_neighbours_spec' junk nrows ncols idx nb hr hc hN hg h9
+  simp only [] at h0
+  subst h0
+  exact ⟨out, hx, hl, hv, hrest⟩
+
+/-- a cell number outside the grid is refused before anything is touched (any buffer, also an empty one) -/
+theorem cgen_neighbours_rejects (junk : Nat → Int) (nrows ncols idx : Int) (nb : List Int)
+    (hN : -9223372036854775808 ≤ nrows * ncols ∧ nrows * ncols ≤ 9223372036854775807)
+    (h : idx < 0 ∨ idx ≥ nrows * ncols) : CGen.c_neighbours junk nrows ncols idx nb = .ok (1, nb) :=
+  cgen_neighbours_invalid' junk nrows ncols idx nb hN h
+
+/-- `c_neighbours` under the kernel's precondition, any cell number -/
+theorem cgen_neighbours_safe (junk : Nat → Int) (nrows ncols idx : Int) (nb : List Int)
+    (hr : 0 ≤ nrows) (hc : 0 ≤ ncols) (hN : nrows * ncols ≤ 9223372036854775807) (h9 : 9 ≤ nb.length) :
+    Safe (CGen.c_neighbours junk nrows ncols idx nb) := by
+  have h0 : 0 ≤ nrows * ncols := Int.mul_nonneg hr hc
+  by_cases hg : 0 ≤ idx ∧ idx < nrows * ncols
+  · exact safe_of_wp (cgen_neighbours_spec' junk nrows ncols idx nb hr hc hN hg h9)
+  · exact ⟨_, cgen_neighbours_invalid' junk nrows ncols idx nb ⟨by omega, hN⟩ (by omega)⟩
+
+/-- `c_upstream` under the kernel's precondition (the one of `upstream_safe`): no access outside a buffer — the
+neighbours read from the local array are `-1` or cells of the grid, `k` stays below 9 — no overflow, no zero
+divisor, for all lengths, flow directions, codes and cell numbers, whatever the local array held -/
+theorem cgen_upstream_safe (junk : Nat → Int) (nrows ncols nval : Int) (code fdir cells out : List Int)
+    (hr : 0 ≤ nrows) (hc : 0 ≤ ncols) (hN : nrows * ncols ≤ 9223372036854775807)
+    (hfd : nrows * ncols ≤ fdir.length) (hcode : 9 ≤ code.length)
+    (h1 : nval ≤ cells.length) (h2 : 9 * nval ≤ out.length) (hL : (out.length : Int) ≤ 9223372036854775807) :
+    Safe (CGen.c_upstream junk nrows ncols code fdir nval cells out) :=
+  safe_of_wp (cgen_upstream_safe' junk nrows ncols nval code fdir cells out hr hc hN hfd hcode h1 h2 hL)
+
+/-- `c_downstream` under the kernel's precondition (the one of `downstream_safe`) -/
+theorem cgen_downstream_safe (junk : Nat → Int) (nrows ncols nval : Int) (code fdir cells out : List Int)
+    (hr : 0 ≤ nrows) (hc : 0 ≤ ncols) (hN : nrows * ncols ≤ 9223372036854775807)
+    (hfd : nrows * ncols ≤ fdir.length) (hcode : 9 ≤ code.length)
+    (h1 : nval ≤ cells.length) (h2 : nval ≤ out.length) :
+    Safe (CGen.c_downstream junk nrows ncols code fdir nval cells out) :=
+  safe_of_wp (cgen_downstream_safe' junk nrows ncols nval code fdir cells out hr hc hN hfd hcode h1 h2)
+
+/-- `c_dateutils_add1month`: under the kernel's precondition the generated function and the hand-written footprint
+model both end without fault, with the same return code -/
+theorem cgen_add1month_refines (date : List Int) (e : Ext) (h : 3 ≤ date.length) (he : e .date = date.length)
+    (hI : ∀ x ∈ date, I32 x) :
+    ∃ x c, CGen.c_dateutils_add1month date = .ok x ∧ add1month e (fun k => date.getD k 0) = .ok c ∧ c = x.1 := by
+  obtain ⟨c, hc, hcv⟩ := add1month_code e (fun k => date.getD k 0) (by omega) (getD_I32 date hI)
+  obtain ⟨y, m, d, r, rfl⟩ := three_of_length h
+  refine ⟨_, c, cgen_add1month_eq' y m d r (hI y (by simp)) (hI m (by simp)), hc, ?_⟩
+  rw [hcv]
+  simp only [List.getD_cons_zero, List.getD_cons_succ]
+  (repeat' split) <;> simp_all
+
+theorem cgen_add1day_refines (date : List Int) (e : Ext) (h : 3 ≤ date.length) (he : e .date = date.length)
+    (hI : ∀ x ∈ date, I32 x) :
+    ∃ x c, CGen.c_dateutils_add1day date = .ok x ∧ add1day e (fun k => date.getD k 0) = .ok c ∧ c = x.1 := by
+  obtain ⟨c, hc, hcv⟩ := add1day_code e (fun k => date.getD k 0) (by omega) (getD_I32 date hI)
+  obtain ⟨y, m, d, r, rfl⟩ := three_of_length h
+  refine ⟨_, c, cgen_add1day_eq' y m d r (hI y (by simp)) (hI m (by simp)) (hI d (by simp)), hc, ?_⟩
+  rw [hcv]
+  simp only [List.getD_cons_zero, List.getD_cons_succ]
+  (repeat' split) <;> simp_all
+
+theorem cgen_comparedates_refines (a b : List Int) (e : Ext) (ha : 3 ≤ a.length) (hb : 3 ≤ b.length)
+    (he1 : e .date1 = a.length) (he2 : e .date2 = b.length) :
+    ∃ c, CGen.c_dateutils_comparedates a b = .ok c ∧
+      comparedates e (fun k => a.getD k 0) (fun k => b.getD k 0) = .ok c := by
+  obtain ⟨c, hc, hcv⟩ := comparedates_code e (fun k => a.getD k 0) (fun k => b.getD k 0) (by omega) (by omega)
+  obtain ⟨y1, m1, d1, r1, rfl⟩ := three_of_length ha
+  obtain ⟨y2, m2, d2, r2, rfl⟩ := three_of_length hb
+  refine ⟨_, cgen_comparedates_eq' y1 m1 d1 y2 m2 d2 r1 r2, ?_⟩
+  rw [hc, hcv]
+  simp only [List.getD_cons_zero, List.getD_cons_succ]
+
+/-- `c_combi`: the hand-written model IS the generated function on every pair of `int`s -/
+theorem cgen_combi_refines (n k : Int) (hn : I32 n) (hk : I32 k) : CGen.c_combi n k = combi n k := by
+  by_cases h : n < 0 ∨ k < 0 ∨ k > 30
+  · rw [cgen_combi_sentinel' n k hn hk (by omega), combi_sentinel n k h]
+  · by_cases hd : n - k > 30
+    · rw [cgen_combi_sentinel' n k hn hk (by omega)]
+      unfold I32 at hn hk
+      symm
+      apply eq_ok_of_wp
+      unfold combi
+      simp only [h, if_false]
+      refine wp_bind (wp_i32 ⟨by omega, by omega⟩ ?_)
+      simp only [hd, if_true]
+      exact wp_pure rfl
+    · have h1 : n.toNat < 61 := by omega
+      have h2 : k.toNat < 31 := by omega
+      have := cgen_combi_same_table ⟨n.toNat, h1⟩ ⟨k.toNat, h2⟩
+      simp only [] at this
+      have e1 : ((n.toNat : Nat) : Int) = n := by omega
+      have e2 : ((k.toNat : Nat) : Int) = k := by omega
+      rw [e1, e2] at this
+      exact eq_of_sameOk this
+
+/-- `c_downstream`: under the kernel's precondition the generated function and the hand-written footprint model both
+end without fault and return the same code (`0`: every cell number is a cell of the grid, `1` otherwise) -/
+theorem cgen_downstream_refines (junk : Nat → Int) (nrows ncols nval : Int) (code fdir cells out : List Int) (e : Ext)
+    (hr : 0 ≤ nrows) (hc : 0 ≤ ncols) (hN : nrows * ncols ≤ 9223372036854775807)
+    (hfd : nrows * ncols ≤ fdir.length) (hcode : 9 ≤ code.length)
+    (h1 : nval ≤ cells.length) (h2 : nval ≤ out.length)
+    (he1 : e .flowdir = fdir.length) (he2 : e .flowdircode = code.length) (he3 : e .idxup = cells.length)
+    (he4 : e .idxdown = out.length) :
+    ∃ x c, CGen.c_downstream junk nrows ncols code fdir nval cells out = .ok x ∧
+      downstream e nrows ncols nval (fun k => code.getD k 0) (fun k => fdir.getD k 0) (fun k => cells.getD k 0) = .ok c ∧
+      c = x.1 := by
+  obtain ⟨x, hx, _, hxc⟩ := cgen_downstream_code' junk nrows ncols nval code fdir cells out hr hc hN hfd hcode h1 h2
+  obtain ⟨c, hc', hcc⟩ := downstream_code e nrows ncols nval (fun k => code.getD k 0) (fun k => fdir.getD k 0)
+    (fun k => cells.getD k 0) hr hc hN (by omega) (by omega) (by omega) (by omega)
+  refine ⟨x, c, hx, hc', ?_⟩
+  rcases hxc with ⟨a, b⟩ | ⟨a, b⟩ <;> rcases hcc with ⟨a', b'⟩ | ⟨a', b'⟩
+  · omega
+  · exact absurd b b'
+  · exact absurd b' b
+  · omega
+
+/-- `c_upstream`: the same for the kernel with the two inner loops -/
+theorem cgen_upstream_refines (junk : Nat → Int) (nrows ncols nval : Int) (code fdir cells out : List Int) (e : Ext)
+    (hr : 0 ≤ nrows) (hc : 0 ≤ ncols) (hN : nrows * ncols ≤ 9223372036854775807)
+    (hfd : nrows * ncols ≤ fdir.length) (hcode : 9 ≤ code.length)
+    (h1 : nval ≤ cells.length) (h2 : 9 * nval ≤ out.length) (hL : (out.length : Int) ≤ 9223372036854775807)
+    (he1 : e .flowdir = fdir.length) (he2 : e .flowdircode = code.length) (he3 : e .idxdown = cells.length)
+    (he4 : e .idxup = out.length) :
+    ∃ x c, CGen.c_upstream junk nrows ncols code fdir nval cells out = .ok x ∧
+      upstream e nrows ncols nval (fun k => code.getD k 0) (fun k => fdir.getD k 0) (fun k => cells.getD k 0) = .ok c ∧
+      c = x.1 := by
+  obtain ⟨x, hx, _, hxc⟩ := cgen_upstream_code' junk nrows ncols nval code fdir cells out hr hc hN hfd hcode h1 h2 hL
+  obtain ⟨c, hc', hcc⟩ := upstream_code e nrows ncols nval (fun k => code.getD k 0) (fun k => fdir.getD k 0)
+    (fun k => cells.getD k 0) hr hc hN (by omega) (by omega) (by omega) (by omega)
+  refine ⟨x, c, hx, hc', ?_⟩
+  rcases hxc with ⟨a, b⟩ | ⟨a, b⟩ <;> rcases hcc with ⟨a', b'⟩ | ⟨a', b'⟩
+  · omega
+  · exact absurd b b'
+  · exact absurd b' b
+  · omega
+
+/-! ### the Cython asserts give the precondition of the GENERATED kernels
+
+Buffers are lists whose lengths are the extents of the generated `call` (`PyxSpec.f.call`). -/
+open HydroVerif.Generated PyxSpec
+
+theorem cgen_add1month_wrapper (s : add1month.Shapes) (v : add1month.Scalars) (ha : add1month.asserts s v)
+    (date : List Int) (hl : date.length = (add1month.call s v).date) (hI : ∀ x ∈ date, I32 x) :
+    Safe (CGen.c_dateutils_add1month date) := by
+  unfold add1month.asserts at ha
+  exact cgen_add1month_safe date (by simp only [add1month.call] at hl; omega) hI
+
+theorem cgen_add1day_wrapper (s : add1day.Shapes) (v : add1day.Scalars) (ha : add1day.asserts s v)
+    (date : List Int) (hl : date.length = (add1day.call s v).date) (hI : ∀ x ∈ date, I32 x) :
+    Safe (CGen.c_dateutils_add1day date) := by
+  unfold add1day.asserts at ha
+  exact cgen_add1day_safe date (by simp only [add1day.call] at hl; omega) hI
+
+theorem cgen_comparedates_wrapper (s : comparedates.Shapes) (v : comparedates.Scalars)
+    (ha : comparedates.asserts s v) (a b : List Int) (hl1 : a.length = (comparedates.call s v).date1)
+    (hl2 : b.length = (comparedates.call s v).date2) : Safe (CGen.c_dateutils_comparedates a b) := by
+  unfold comparedates.asserts at ha
+  simp only [comparedates.call] at hl1 hl2
+  exact cgen_comparedates_safe a b (by omega) (by omega)
+
+theorem cgen_combi_wrapper (s : combi.Shapes) (v : combi.Scalars) (hr : combi.scalarRange v) :
+    Safe (CGen.c_combi (combi.call s v).n (combi.call s v).k) := by
+  unfold combi.scalarRange FitsI32 at hr
+  exact cgen_combi_safe _ _ hr.1 hr.2
+
+theorem cgen_cell2rowcol_wrapper (s : cell2rowcol.Shapes) (v : cell2rowcol.Scalars) (ha : cell2rowcol.asserts s v)
+    (hp : PyAlloc_grid v.nrows v.ncols) (junk : Nat → Int) (idxcell rowcols : List Int)
+    (hl1 : idxcell.length = (cell2rowcol.call s v).idxcell) (hl2 : rowcols.length = (cell2rowcol.call s v).rowcols)
+    (hL : (rowcols.length : Int) ≤ 9223372036854775807) :
+    Safe (CGen.c_cell2rowcol junk (cell2rowcol.call s v).nrows (cell2rowcol.call s v).ncols
+      (cell2rowcol.call s v).nval idxcell rowcols) := by
+  unfold cell2rowcol.asserts at ha
+  obtain ⟨p1, p2, p3⟩ := hp
+  obtain ⟨a1, a2⟩ := ha
+  simp only [cell2rowcol.call] at hl1 hl2 ⊢
+  apply cgen_cell2rowcol_safe _ _ _ _ _ _ p1 p2 p3
+  · omega
+  · rw [hl2]; push_cast; rw [a2]; omega
+  · exact hL
+
+theorem cgen_neighbours_wrapper (s : neighbours.Shapes) (v : neighbours.Scalars) (ha : neighbours.asserts s v)
+    (hp : PyAlloc_grid v.nrows v.ncols) (junk : Nat → Int) (nb : List Int)
+    (hl : nb.length = (neighbours.call s v).neighbours) :
+    Safe (CGen.c_neighbours junk (neighbours.call s v).nrows (neighbours.call s v).ncols
+      (neighbours.call s v).idxcell nb) := by
+  unfold neighbours.asserts at ha
+  obtain ⟨p1, p2, p3⟩ := hp
+  simp only [neighbours.call] at hl ⊢
+  exact cgen_neighbours_safe _ _ _ _ _ p1 p2 p3 (by omega)
+
+theorem cgen_upstream_wrapper (s : upstream.Shapes) (v : upstream.Scalars) (ha : upstream.asserts s v)
+    (hn : NumpySize s.flowdir_0 s.flowdir_1) (junk : Nat → Int) (code fdir cells out : List Int)
+    (hl1 : code.length = (upstream.call s v).flowdircode) (hl2 : fdir.length = (upstream.call s v).flowdir)
+    (hl3 : cells.length = (upstream.call s v).idxdown) (hl4 : out.length = (upstream.call s v).idxup)
+    (hL : (out.length : Int) ≤ 9223372036854775807) :
+    Safe (CGen.c_upstream junk (upstream.call s v).nrows (upstream.call s v).ncols code fdir
+      (upstream.call s v).nval cells out) := by
+  unfold upstream.asserts at ha
+  unfold NumpySize at hn
+  obtain ⟨a1, a2, a3, a4⟩ := ha
+  simp only [upstream.call] at hl1 hl2 hl3 hl4 ⊢
+  apply cgen_upstream_safe
+  · omega
+  · omega
+  · exact hn
+  · rw [hl2]; push_cast; omega
+  · have e0 : s.flowdircode_0 = 3 := by omega
+    have e1 : s.flowdircode_1 = 3 := by omega
+    rw [hl1, e0, e1]
+  · omega
+  · rw [hl4]; push_cast; rw [a2]; omega
+  · exact hL
+
+theorem cgen_downstream_wrapper (s : downstream.Shapes) (v : downstream.Scalars) (ha : downstream.asserts s v)
+    (hn : NumpySize s.flowdir_0 s.flowdir_1) (junk : Nat → Int) (code fdir cells out : List Int)
+    (hl1 : code.length = (downstream.call s v).flowdircode) (hl2 : fdir.length = (downstream.call s v).flowdir)
+    (hl3 : cells.length = (downstream.call s v).idxup) (hl4 : out.length = (downstream.call s v).idxdown) :
+    Safe (CGen.c_downstream junk (downstream.call s v).nrows (downstream.call s v).ncols code fdir
+      (downstream.call s v).nval cells out) := by
+  unfold downstream.asserts at ha
+  unfold NumpySize at hn
+  obtain ⟨a1, a2, a3⟩ := ha
+  simp only [downstream.call] at hl1 hl2 hl3 hl4 ⊢
+  apply cgen_downstream_safe
+  · omega
+  · omega
+  · exact hn
+  · rw [hl2]; push_cast; omega
+  · have e0 : s.flowdircode_0 = 3 := by omega
+    have e1 : s.flowdircode_1 = 3 := by omega
+    rw [hl1, e0, e1]
+  · omega
+  · omega
+
+end generated
+
 /-! ## the hypotheses are satisfiable, the models are not trivially safe -/
 
 macro "ex_arith" : tactic => `(tactic| first | (norm_num [constExt]; done) | (simp [constExt]; done) | decide | (intros; simp [constExt] at *; omega))
@@ -1361,6 +1806,8 @@ macro "ex_arith" : tactic => `(tactic| first | (norm_num [constExt]; done) | (si
 buffer has `n` elements) -/
 def exCode : Nat → Int := fun j => [32, 64, 128, 16, 0, 1, 8, 4, 2].getD j 0
 def exFdir : Nat → Int := fun i => [4, 4, 4, 1, 16, 4, 0, 0, 0].getD i 0
+def exCodeL : List Int := [32, 64, 128, 16, 0, 1, 8, 4, 2]
+def exFdirL : List Int := [4, 4, 4, 1, 16, 4, 0, 0, 0]
 
 example : Safe (aggregate (constExt 4) 4 (fun i => (i / 2 : Nat))) := aggregate_safe _ _ _ (by ex_arith) (by ex_arith) (by ex_arith) (by ex_arith)
 example : Safe (flathomogen (constExt 4) 4 (fun i => (i / 2 : Nat))) := flathomogen_safe _ _ _ (by ex_arith) (by ex_arith) (by ex_arith)
@@ -1452,5 +1899,42 @@ example : ∀ i j : Nat, i ≤ j → (j : Int) < 3 →
 example : isOk (delineateBoundary
     (fun b => match b with | .idxcellsArea => 1 | .buffer => 1 | .mask => 9 | .idxboundary => 1 | _ => 0)
     3 3 1 (fun _ => 4) (fun i => if i = 4 then 1 else 0)) = true := by decide +kernel
+
+/-! concrete runs of the GENERATED definitions (kernel evaluation): the hypotheses of the `cgen_*` theorems are
+satisfiable, and the generated functions do fault outside them -/
+section generated_examples
+open HydroVerif.CSem
+example : CGen.c_dateutils_add1day [2024, 2, 28] = .ok (0, [2024, 2, 29]) := by decide +kernel
+example : CGen.c_dateutils_add1day [2023, 2, 28, 7] = .ok (0, [2023, 3, 1, 7]) := by decide +kernel
+example : CGen.c_dateutils_add1month [2024, 1, 31] = .ok (0, [2024, 2, 29]) := by decide +kernel
+example : CGen.c_dateutils_add1day [2024, 2] = .error (.oob (.arg 0) 2) := by decide +kernel
+example : CGen.c_dateutils_isleapyear 1900 = .ok 0 := by decide +kernel
+example : CGen.c_combi 40 20 = .ok 137846528820 := by decide +kernel
+example : CGen.c_combi (-2147483648) 1 = .ok (-1) := by decide +kernel
+example : CGen.getnxy 0 5 [0, 0] = .error .div0 := by decide +kernel
+example : CGen.c_cell2rowcol driverJunk 3 4 3 [0, 5, 12] [9, 9, 9, 9, 9, 9] = .ok (0, [0, 0, 1, 1, -1, -1]) := by decide +kernel
+example : CGen.c_neighbours driverJunk 3 3 4 [0, 0, 0, 0, 0, 0, 0, 0, 0] = .ok (0, [0, 1, 2, 3, -1, 5, 6, 7, 8]) := by
+  decide +kernel
+example : CGen.c_neighbours driverJunk 3 3 0 [0, 0, 0, 0, 0, 0, 0, 0] = .error (.oob (.arg 3) 8) := by decide +kernel
+/-- hypotheses of `cgen_add1day_value`, `cgen_add1month_value`: 28 February 2024 -/
+example : I32 2024 ∧ (1 ≤ (2 : Int) ∧ (2 : Int) ≤ 12) ∧ (1 ≤ (28 : Int) ∧ (28 : Int) ≤ nbdayOf 2024 2) := by
+  refine ⟨by unfold I32; omega, by omega, by omega, by decide⟩
+/-- hypotheses of `cgen_combi_choose`: `C(40, 20)` -/
+example : (0 : Int) ≤ 20 ∧ (20 : Int) ≤ 40 ∧ (20 : Int) ≤ 30 ∧ (40 : Int) - 20 ≤ 30 := by omega
+/-- hypotheses of `cgen_cell2rowcol_value` / `cgen_upstream_safe` / `cgen_downstream_safe`: a 3 x 3 grid, two cells -/
+example : (0 : Int) ≤ 3 ∧ (3 : Int) * 3 ≤ 9223372036854775807 ∧ (3 : Int) * 3 ≤ (exFdirL.length : Int) ∧
+    9 ≤ exCodeL.length ∧ (2 : Int) ≤ ([4, 7] : List Int).length ∧ 9 * (2 : Int) ≤ (List.replicate 18 (0 : Int)).length := by
+  decide
+example : Safe (CGen.c_upstream driverJunk 3 3 exCodeL exFdirL 2 [4, 7] (List.replicate 18 0)) :=
+  cgen_upstream_safe _ _ _ _ _ _ _ _ (by omega) (by omega) (by omega) (by decide) (by decide) (by decide) (by decide)
+    (by decide)
+example : CGen.c_upstream driverJunk 3 3 exCodeL exFdirL 2 [4, 7] (List.replicate 18 0) =
+    .ok (0, [1, 3, -1, -1, -1, -1, -1, -1, -1, -1, -1, -1, -1, -1, -1, -1, -1, -1]) := by decide +kernel
+example : CGen.c_downstream driverJunk 3 3 exCodeL exFdirL 3 [0, 4, 8] [9, 9, 9] = .ok (0, [3, 3, -2]) := by
+  decide +kernel
+/-- the same call with a flow direction grid one element short faults in the generated model -/
+example : CGen.c_downstream driverJunk 3 3 exCodeL (exFdirL.take 8) 3 [0, 4, 8] [9, 9, 9] =
+    .error (.oob (.arg 3) 8) := by decide +kernel
+end generated_examples
 
 end HydroVerif.C05
